@@ -544,6 +544,10 @@ def run(ctx):
             for j in range(0, len(cases), per):
                 chunk = cases[j:j + per]
                 ok, out = res[f"c08_{variant}_{j // per}"]
+                if not ok and out.startswith("TIMEOUT"):
+                    # kernel evaluation hit its time limit: unvalidated, neither discharged nor a violation
+                    cov["unvalidated_instances"] = cov.get("unvalidated_instances", 0) + len(chunk)
+                    continue
                 bl = lib.parse_bool_list(out) if ok else None
                 cov["obligations"] += len(chunk)
                 k_total += len(chunk)
